@@ -556,11 +556,27 @@ def run_witnesses(spec, rec):
             for name, tmpl in w["flat_components"].items():
                 registry.register(name, type("W" + name, (Component,), {"template": tmpl}))
                 names.append(name)
+            diverged = False
             with env.override_settings(COMPONENTS={"context_behavior": w["mode"], "autodiscover": False}):
-                fam = e1run.normalise(env.Template(w["family_page"]).render(env.Context({})))
+                env.inst_count = 0
+                env.inst_limit = 300 if w.get("nonterminating") else None
+                try:
+                    fam = e1run.normalise(env.Template(w["family_page"]).render(env.Context({})))
+                except e1run.Divergence:
+                    # (logical guard: the page has two component tags and has instantiated 300 components)
+                    diverged, fam = True, "<does not terminate>"
+                finally:
+                    env.inst_limit = None
                 flat = e1run.normalise(env.Template(w["flat_page"]).render(env.Context({})))
             rec.observe("family-vs-flattened-comparisons")
             case = {"kind": "witness", "witness_of": f["id"]}
+            if w.get("nonterminating"):
+                if not diverged and fam == flat:
+                    continue  # repaired
+                detail = {"what": f"family {fam!r} flattened {flat!r}"}
+                if not (diverged and flat == w["expected"] and rec.known_finding(f["id"], case, detail)):
+                    rec.violation("family-differs-from-flattened", case, detail)
+                continue
             if fam == flat:
                 continue  # repaired
             if fam == w["observed"] and flat == w["expected"]:
